@@ -233,7 +233,12 @@ func init() {
 			hseed := r.Int63()
 			hr := rand.New(rand.NewSource(hseed))
 			cfg := cfgs[hr.Intn(len(cfgs))]
-			prof := pqengine.Profile{Steps: 20 + hr.Intn(120), MaxEvent: 6 * int(cfg.PageSize), Boundary: true, Reopen: true, PageSize: int(cfg.PageSize), AckPct: 6}
+			if i%6 == 5 {
+				// the queue header at an offset inside a shared root page (a delegate other than the standalone one)
+				cfg.RootOff = 64 * uintptr(2+i%9)
+				rep.count("queue-header-at-an-offset-of-the-root-page", 1)
+			}
+			prof := pqengine.Profile{Steps: 20 + hr.Intn(120), MaxEvent: 6 * int(cfg.PageSize), Boundary: true, Reopen: true, PageSize: int(cfg.PageSize), AckPct: 6, Empty: i%3 == 2}
 			ops := pqengine.History(hr, prof)
 			k1 := rand.New(rand.NewSource(hseed + 1))
 			first := true
